@@ -20,6 +20,7 @@ type runCase struct {
 	Funcs    []string    `json:"funcs,omitempty"`
 	Format   string      `json:"format,omitempty"`
 	Wrap     string      `json:"wrap,omitempty"`
+	Enums    map[string][]string `json:"enums,omitempty"`
 }
 
 // runVerdict is the classified outcome of a runCase.
@@ -40,7 +41,7 @@ func executeRunCase(s *vh.Session, c runCase) runVerdict {
 	}
 	rs := &vh.RunSpec{
 		Prog: c.Conv.Prog, Conv: c.Conv, Patterns: []string{"./" + c.Conv.ConvPkg},
-		Manifest: vh.DriverManifest{Mode: c.Mode, Values: c.Values, Methods: infos, Sharing: c.Sharing, Distinct: c.Distinct, Races: c.Race, Wrap: c.Wrap},
+		Manifest: vh.DriverManifest{Mode: c.Mode, Values: c.Values, Methods: infos, Sharing: c.Sharing, Distinct: c.Distinct, Races: c.Race, Wrap: c.Wrap, Enums: c.Enums},
 		Race:     c.Race, Seed: c.Seed, Funcs: c.Funcs, Format: c.Format,
 	}
 	out := s.Execute(rs)
